@@ -151,6 +151,10 @@ class InPredicate:
                 if not result:
                     return None
         elif positive:
+            if isinstance(self.pattern_vals, (str, bytes)):
+                # `x in "abc"` is a substring test: x may be any substring (including
+                # the empty string), not just one of the characters.
+                return value
             acceptable_values = [
                 KnownValue(pattern_val)
                 for pattern_val in self.pattern_vals
